@@ -73,6 +73,7 @@ def serve_dataset(args):
     lines, raws = [], []
     info = dict(alive=True, exit=None)
     stub = l3.OsrmStub()
+    stub.fraction = bool(opts.get("fraction"))        # durations / distances served as t - 0.8 (the server takes the ceiling)
     srv = None
     try:
         srv = l3.Server(binary, cache, stub.port, threads=opts.get("threads", 1), cache_all=opts.get("cache_all", False))
@@ -158,7 +159,7 @@ def l3_batch(seed, count, nq, driver, outdir, binary=None, profiles=("opt", "loo
             f.write("# L3 seed=%d index=%d profile=%s\n" % (seed, i, prof_name))
             f.write(normalize_dataset(ds).text())
             f.write("\n".join(op_text(o) for o in ops) + "\n")
-        jobs.append((binary, ds, ops, os.path.join(outdir, "w%04d" % i), opts))
+        jobs.append((binary, ds, ops, os.path.join(outdir, "w%04d" % i), dict(opts, fraction=(i % 3 == 1))))
         metas.append((case, ds, ops))
     with ThreadPoolExecutor(max_workers=workers) as ex:
         served = list(ex.map(serve_dataset, jobs))
